@@ -9,8 +9,30 @@ use fidget_core::{
 use fidget_jit::JitFunction;
 use std::panic::AssertUnwindSafe;
 
+/// Functions that could not be built from a well-formed program (budgets of at least 3 registers never fail on one):
+/// a recorder that skips such a program silently would leave it judged by nobody
+static BUILD_FAILURES: std::sync::Mutex<Vec<String>> = std::sync::Mutex::new(Vec::new());
+
 pub fn vm_fn<const N: usize>(p: &Prog) -> Result<GenericVmFunction<N>, String> {
-    Ok(GenericVmFunction::<N>::from(make_vmdata::<N>(p)?))
+    match make_vmdata::<N>(p) {
+        Ok(d) => Ok(GenericVmFunction::<N>::from(d)),
+        Err(m) => {
+            if N >= 3 {
+                BUILD_FAILURES.lock().unwrap().push(format!("N={N}: {m} ({} ops): {}", p.ssa.len(), crate::tapes::ops_json(&p.ssa)));
+            }
+            Err(m)
+        }
+    }
+}
+
+/// Ends the recorder abnormally (which the runner reports as a crash of the code under test, with this text) if a
+/// function could not be built for some program
+pub fn exit_on_build_failures(recorder: &str) {
+    let f = BUILD_FAILURES.lock().unwrap();
+    if !f.is_empty() {
+        eprintln!("{recorder}: {} programs could not be compiled by the code under test, e.g. {}", f.len(), f[0]);
+        std::process::exit(101);
+    }
 }
 /// The JIT compiles the 12-register tape (x86_64 REGISTER_LIMIT)
 pub fn jit_fn(p: &Prog) -> Result<JitFunction, String> {
